@@ -12,7 +12,7 @@ from harness import build, world, clock
 PROPERTY = 'C16'
 LEVEL = 'exploration'
 RULE = ('federations: Hypothesis specs of 1-3 sources x 1-5 entities from a pool of 5 entity ids (so ids repeat across sources) x roles {idp, sp, aa} x endpoints over 5 bindings with '
-        'indexes x key descriptors (use signing/encryption/none, 1-2 certs) x protocolSupportEnumeration {SAML2, SAML1 only, both} x entity categories / requested attributes x '
+        'indexes x key descriptors (use signing/encryption/none, 1-2 certs) x protocolSupportEnumeration {SAML2, SAML1 only, both} x entity categories (one Attribute, one Attribute per value, spread over two EntityAttributes blocks; a second entity attribute interleaved) / requested attributes x '
         'validUntil {absent, past, future} on entity and document x signed remote roots {valid, tampered, wrong key}; all accessors queried for every (entity, role, service, binding) '
         'incl. an unknown entity. config round trip: generated SP/IdP configs -> entity_descriptor -> store. '
         'Non-trivial = federation has a duplicate id, an expired item, a signed source or an entity with >= 2 roles / key uses; distinct = distinct spec.')
@@ -42,7 +42,8 @@ def spec_strategy():
         return st.fixed_dictionaries(dict((s, st.lists(ep, min_size=1 if k == 0 else 0, max_size=3)) for k, s in enumerate(services)), optional={}).flatmap(
             lambda eps: st.fixed_dictionaries({'eps': st.just(eps), 'keys': keys, 'protocols': st.sampled_from(['2', '2', '2', '1', '1+2'])}))
     req = st.fixed_dictionaries({'name': st.sampled_from(['urn:oid:2.5.4.42', 'urn:oid:2.5.4.4', 'urn:oid:0.9.2342.19200300.100.1.3']), 'required': st.booleans()})
-    entity = st.fixed_dictionaries({'id': st.integers(0, 4), 'valid_until': vu, 'cats': st.lists(st.sampled_from(['urn:cat:a', 'urn:cat:b']), max_size=2, unique=True),
+    entity = st.fixed_dictionaries({'id': st.integers(0, 4), 'valid_until': vu, 'cats': st.lists(st.sampled_from(['urn:cat:a', 'urn:cat:b', 'urn:cat:c']), max_size=3, unique=True),
+                                    'cats_layout': st.integers(0, 2), 'other_attr': st.booleans(),
                                     'requested': st.lists(req, max_size=3)},
                                    optional={'idp': role(ROLE_SERVICES['idp']), 'sp': role(ROLE_SERVICES['sp']), 'aa': role(ROLE_SERVICES['aa'])}
                                    ).filter(lambda e: any(r in e for r in ('idp', 'sp', 'aa')))   # an EntityDescriptor needs at least one role descriptor
@@ -60,12 +61,30 @@ def loc(eid, role, svc, path):
     return '%s/%s/%s%s' % (IDS[eid].replace('urn:', 'https://urn.example.org/'), role, svc, path)
 
 
+ASSURANCE = 'urn:oasis:names:tc:SAML:attribute:assurance-certification'
+ASSURANCE_VALUES = ['https://refeds.org/sirtfi', 'urn:assurance:x']
+
+
 def render_entity(e):
     d = {'entityid': IDS[e['id']], 'valid_until': when(e['valid_until'])}
-    if e['cats']:
-        d['extensions'] = ('<mdattr:EntityAttributes xmlns:mdattr="urn:oasis:names:tc:SAML:metadata:attribute"><saml:Attribute xmlns:saml="urn:oasis:names:tc:SAML:2.0:assertion" '
-                           'Name="%s" NameFormat="urn:oasis:names:tc:SAML:2.0:attrname-format:uri">%s</saml:Attribute></mdattr:EntityAttributes>') % (
-            CATEGORY, ''.join('<saml:AttributeValue>%s</saml:AttributeValue>' % c for c in e['cats']))
+    if e['cats'] or e.get('other_attr'):
+        # the same attribute Name may be spread over several Attribute elements and several EntityAttributes blocks
+        def attr(name, vals):
+            return ('<saml:Attribute xmlns:saml="urn:oasis:names:tc:SAML:2.0:assertion" Name="%s" NameFormat="urn:oasis:names:tc:SAML:2.0:attrname-format:uri">%s</saml:Attribute>'
+                    % (name, ''.join('<saml:AttributeValue>%s</saml:AttributeValue>' % c for c in vals)))
+
+        def block(inner):
+            return '<mdattr:EntityAttributes xmlns:mdattr="urn:oasis:names:tc:SAML:metadata:attribute">%s</mdattr:EntityAttributes>' % inner
+        other = attr(ASSURANCE, ASSURANCE_VALUES) if e.get('other_attr') else ''
+        layout = e.get('cats_layout', 0) if len(e['cats']) > 1 else 0
+        if not e['cats']:
+            d['extensions'] = block(other)
+        elif layout == 0:
+            d['extensions'] = block(attr(CATEGORY, e['cats']) + other)
+        elif layout == 1:
+            d['extensions'] = block(attr(CATEGORY, e['cats'][:1]) + other + ''.join(attr(CATEGORY, [c]) for c in e['cats'][1:]))
+        else:
+            d['extensions'] = block(attr(CATEGORY, e['cats'][:1])) + block(other + attr(CATEGORY, e['cats'][1:]))
     for role in ('idp', 'sp', 'aa'):
         if role not in e:
             continue
@@ -139,7 +158,7 @@ def model_of_source(src):
                 roles[role] = e[role]
         if not roles:
             continue
-        out[IDS[e['id']]] = {'roles': roles, 'cats': e['cats'], 'requested': e['requested'] if 'sp' in roles else None, 'id': e['id']}
+        out[IDS[e['id']]] = {'roles': roles, 'cats': e['cats'], 'other_attr': bool(e.get('other_attr')), 'requested': e['requested'] if 'sp' in roles else None, 'id': e['id']}
     return out
 
 
@@ -311,6 +330,18 @@ def run(case):
             cats = sorted(mds.entity_categories(eid))
             if cats not in [sorted(d['cats']) for d in ds]:
                 raise Violation('entity-categories-differ', 'entity_categories(%s) = %r, declared %r' % (eid, cats, [d['cats'] for d in ds]))
+            ea = mds.entity_attributes(eid)
+            got_ea = dict((k, sorted(v)) for k, v in ea.items())
+            exp_ea = []
+            for d in ds:
+                x = {}
+                if d['cats']:
+                    x[CATEGORY] = sorted(d['cats'])
+                if d.get('other_attr'):
+                    x[ASSURANCE] = sorted(ASSURANCE_VALUES)
+                exp_ea.append(x)
+            if got_ea not in exp_ea:
+                raise Violation('entity-attributes-differ', 'entity_attributes(%s) = %r, declared %r' % (eid, got_ea, exp_ea))
             ar = mds.attribute_requirement(eid)
             got = None if ar is None else (sorted(a['name'] for a in ar['required']), sorted(a['name'] for a in ar['optional']))
             exp = []
